@@ -301,3 +301,45 @@ def fam_txn(tier, base):
 prop("C17", "txn", "all outcome vectors (cond ok/fail, then ok/fail/absent, rollback ok/fail/absent) x cancellation before / during / after each step, for Txn and PCR; exhaustive; non-trivial = a rollback ran",
      ["steps are scripted closures that log their context's state at entry and exit; cancellation is issued from inside the steps, so every position is deterministic",
       "ttl of one minute is never reached"])
+
+
+# =========================================================================== Wal: C16
+@family("wal")
+def fam_wal(tier, base):
+    q = tier == "quick"
+    inputs, trace = base + ".in.ndjson", base + ".trace.ndjson"
+    states = gen = n = 0
+    cfgs = []
+    seen = set()
+    with open(inputs, "w") as f:
+        for cfg, sim in (("MC_Wal_quick.cfg" if q else "MC_Wal_thorough.cfg", None), ("MC_Wal_sim.cfg", "num=%d" % (30 if q else 2000))):
+            if sim:
+                r = verif.tlc("MC_Wal", cfg, simulate=sim, depth=14, workers=1, timeout=3000)
+                if r.error:
+                    raise Broken("simulation %s: %s" % (cfg, r.error))
+            else:
+                r = verif.model_check("MC_Wal", cfg, timeout=3000)
+                states += r.distinct
+                gen += r.generated
+            cfgs.append(cfg)
+            for s in r.tagged("INPUT"):
+                if s not in seen:
+                    seen.add(s)
+                    f.write(s + "\n")
+                    n += 1
+    b = verif.build_driver("pure")
+    nrand = 300 if q else 20000
+    verif.run_driver(b, "TestWalReplay", env={"VERIF_INPUTS": inputs, "VERIF_TRACE": trace, "VERIF_RANDOM": nrand, "VERIF_PAR": 12}, timeout=7000)
+    os.remove(inputs)
+    viols, tr = verif.validate_trace("Trace_Wal", "Trace_Wal.cfg", trace, heap="16g")
+    lines = verif.read_lines(trace)
+    cnt = lambda s: sum(1 for ln in lines if s in ln)
+    return dict(trace=trace, viols=viols, states=states, transitions=gen, configs=cfgs + ["Trace_Wal.cfg"], window=10, exhaustive=False,
+                traces={"*": cnt('"ev":"Start"')}, samples={"*": [json.loads(x) for x in lines[:12]]},
+                nontrivial={"C16": cnt('"op":"recover"')},
+                notes="%d TLC-generated histories (all sequences of %d ops + simulated 12-op ones) + %d random histories incl. concurrent loggers, on a real wal.Hydro over a bbolt file; %d recoveries, %d reopens, %d handler examinations" % (n, 4 if q else 5, nrand, cnt('"op":"recover"'), cnt('"op":"reopen"'), cnt('"ev":"Examined"')))
+
+
+prop("C16", "wal", "TLC-generated histories of log/commit/reopen/recover over 2-3 event types and scripted handler answers (ok, handle error, check error, not-needed, decode error, unknown type), random longer ones with 4 concurrent loggers; after every operation the real key set is read from a copy of the bbolt file; non-trivial = a recovery ran",
+     ["a restart is Hydro.Close + NewHydro on the same file (same process); commit handles obtained before a restart are not used afterwards",
+      "event ids are observed by copying the bbolt file and scanning the copy with kv.Lithium (no hook)"])
